@@ -70,12 +70,12 @@ def gen_cfg(r: random.Random) -> dict:
 
 ENV_ACTIONS = ['create', 'edit_spec', 'edit_label', 'edit_status', 'edit_ann', 'foreign_fin_add', 'foreign_fin_del',
                'delete', 'run', 'stop_restart', 'kill_restart', 'kill_mid_patch', 'downtime_edits', 'disconnect', 'gone410',
-               'conflict422', 'recreate']
+               'conflict422', 'recreate', 'race_edit']
 
 
 def gen_actions(r: random.Random, n: int, weights: dict[str, float] | None = None) -> list[dict]:
     w = {a: 1.0 for a in ENV_ACTIONS}
-    w.update({'run': 3.0, 'edit_spec': 2.5, 'create': 1.5, 'kill_mid_patch': 0.6, 'recreate': 0.3, 'gone410': 0.5})
+    w.update({'run': 3.0, 'edit_spec': 2.5, 'create': 1.5, 'kill_mid_patch': 0.6, 'recreate': 0.3, 'gone410': 0.5, 'race_edit': 1.2})
     if weights:
         w.update(weights)
     names = [a for a in ENV_ACTIONS if w[a] > 0]
@@ -103,6 +103,8 @@ def gen_actions(r: random.Random, n: int, weights: dict[str, float] | None = Non
             acts.append({'a': a, 'nth': r.choice([1, 1, 2, 3]), 'applied': r.random() < 0.5, 'obj': obj, 'patch': {'a': r.randrange(300, 400)}})
         elif a == 'conflict422':
             acts.append({'a': a, 'count': r.choice([1, 1, 2])})
+        elif a == 'race_edit':
+            acts.append({'a': a, 'obj': obj, 'patch': {'a': r.randrange(400, 500)}, 'hops': r.randrange(0, 14), 'nth_timer': r.choice([0, 0, 0, 1])})
         else:
             acts.append({'a': a, 'obj': obj})
     return acts
@@ -285,6 +287,20 @@ def run_scenario(scenario: dict, horizon: float = 90.0) -> Run:
                     run.exclusions.add('kill')
                     w.run_for(0.25)
                     op = new_op()
+            elif kind_a == 'race_edit':
+                # an external edit whose watch event is in flight while a timer of the operator (idle worker timeout,
+                # retry sleep, consistency deadline, ...) fires: edit now, let the delivery advance `hops` loop
+                # iterations, then jump to the timer's deadline
+                deadlines = sorted({h._when for h in w.loop._scheduled if not h._cancelled})   # type: ignore[attr-defined]
+                deadlines = [t for t in deadlines if w.now < t <= w.now + 30]
+                if len(deadlines) > a.get('nth_timer', 0):
+                    t = deadlines[a.get('nth_timer', 0)]
+                    api.merge_edit(kind, 'ns1', obj, {'spec': a['patch']})
+                    for _ in range(a.get('hops', 0)):
+                        if w.loop.has_ready():
+                            w.loop.step()
+                    w.loop.advance_to(t)
+                    w.loop.settle()
             elif kind_a == 'disconnect':
                 for s in api.open_streams(kind):
                     s.terminate('connection')
